@@ -194,7 +194,7 @@ func jobs() []*job {
 	adj1 := []op{mkAdj(1, 3, true, 255), mkAdj(3, 1, false, 0)}
 	// depths: [flow mf=2, flow mf=16384, ring, edge-windows] x {quick, thorough}
 	depths := map[string][4][2]int{
-		"rr":     {{7, 9}, {6, 8}, {7, 10}, {6, 8}},
+		"rr":     {{7, 9}, {6, 8}, {8, 10}, {6, 8}},
 		"random": {{6, 8}, {5, 7}, {7, 9}, {6, 7}},
 	}
 	for _, sched := range []string{"rr", "random"} {
@@ -505,6 +505,10 @@ func (s *sys) key(snap *http2.VerifC20Snap) string {
 	b.WriteString(" | ctl")
 	fdesc(&b, snap.Control)
 	b.WriteString(" pool")
+	b.WriteString(" uncovered=" + snap.Uncovered)
+	if strings.Contains(snap.Uncovered, "<unsupported>") {
+		uncoveredUnsupported.Store(snap.Uncovered)
+	}
 	for _, n := range snap.Pool {
 		if n != 0 {
 			b.WriteString(" dirty" + strconv.Itoa(n))
@@ -1203,6 +1207,11 @@ func TestCheck(t *testing.T) {
 	rep := ev.New("C20", "model_checking")
 	defer rep.Write()
 	defer func() {
+		if v := uncoveredUnsupported.Load(); v != nil {
+			rep.HarnessError("a scheduler structure has a field the canonical state dump cannot cover; states may have been merged unsoundly: %v", v)
+		}
+	}()
+	defer func() {
 		if r := recover(); r != nil {
 			rep.HarnessError("harness panic: %v", r)
 		}
@@ -1411,3 +1420,6 @@ func max64(a, b int64) int64 {
 	}
 	return b
 }
+
+// set when a scheduler structure has a field the canonical dump cannot cover (state merging may then be unsound)
+var uncoveredUnsupported atomic.Value
